@@ -1,6 +1,7 @@
 package nodesim
 
 import (
+	"fmt"
 	"sync"
 	"testing"
 	"testing/synctest"
@@ -29,6 +30,12 @@ func genC23(rt *rapid.T) any {
 	base := genTree(2, 6, 18, 5, 5, 6, true)(rt).(*TreePlan)
 	p := &C23Plan{TreePlan: *base}
 	p.Concurrent = rapid.IntRange(0, 2).Draw(rt, "conc") == 2
+	switch getenv("VERIF_C23_MODE", "") { // development knob: force one mode
+	case "seq":
+		p.Concurrent = false
+	case "conc":
+		p.Concurrent = true
+	}
 	p.Yields = rapid.SampledFrom([]int{0, 1, 3, 8}).Draw(rt, "yields")
 	p.Rounds = rapid.IntRange(1, 3).Draw(rt, "rounds")
 	return p
@@ -42,7 +49,7 @@ func execC23(t *testing.T, plan any, r *simkit.Run) {
 	}
 	attempts := 1
 	if getenv("VERIF_MODE", "") == "replay" {
-		attempts = 12 // the Go scheduler picks the interleaving: repeat the same concurrent workload
+		attempts = 40 // the Go scheduler picks the interleaving: repeat the same concurrent workload, varying the slow-disk fault
 	}
 	for a := 0; a < attempts && !r.Failed(); a++ {
 		Bubble(t, func() {
@@ -62,19 +69,34 @@ func execC23(t *testing.T, plan any, r *simkit.Run) {
 				n.Process(w.Blocks[pr.Hash])
 			}
 			rest := prods[p.Warm:]
-			disk.YieldBeforeWrite = p.Yields
+			disk.YieldBeforeWrite = []int{p.Yields, 1, 3, 8}[a%4]
+			if a == 0 {
+				disk.YieldBeforeWrite = p.Yields
+			}
 			if p.Yields > 0 {
 				r.Count("fault.slow_disk", 1)
 			}
 			n.Activate()
 			var wg sync.WaitGroup
+			var logMu sync.Mutex
+			var evlog []string
+			dbg := getenv("VERIF_DEBUG", "") != ""
+			note := func(f string, a ...any) {
+				if dbg {
+					logMu.Lock()
+					evlog = append(evlog, fmt.Sprintf(f, a...))
+					logMu.Unlock()
+				}
+			}
 			start := make(chan struct{})
 			wg.Add(2)
 			go func() { // block feeder
 				defer wg.Done()
 				<-start
 				for _, pr := range rest {
-					n.Chain.ProcessBlock(copyBlock(w.Blocks[pr.Hash]))
+					note("B begin %s", w.name(pr.Hash))
+					_, err := n.Chain.ProcessBlock(copyBlock(w.Blocks[pr.Hash]))
+					note("B end %s err=%v best=%s", w.name(pr.Hash), err, w.name(n.Best()))
 				}
 			}()
 			go func() { // submitter: the transactions of exactly those blocks, again and again
@@ -82,8 +104,24 @@ func execC23(t *testing.T, plan any, r *simkit.Run) {
 				<-start
 				for round := 0; round < p.Rounds; round++ {
 					for _, pr := range rest {
-						for _, tx := range w.Blocks[pr.Hash].Transactions[1:] {
-							n.Chain.ValidateTx(tx)
+						for i, tx := range w.Blocks[pr.Hash].Transactions[1:] {
+							orphan, err := n.Chain.ValidateTx(tx)
+							ins := ""
+							if dbg {
+								for _, sp := range tx.SpentOutputIDs {
+									sp := sp
+									e, gerr := n.Store.GetUtxo(&sp)
+									if gerr != nil {
+										ins += " " + sp.String()[:6] + ":absent"
+									} else {
+										ins += fmt.Sprintf(" %s:spent=%v,type=%d,h=%d", sp.String()[:6], e.Spent, e.Type, e.BlockHeight)
+									}
+								}
+								for _, rid := range tx.ResultIds {
+									ins += " out=" + rid.String()[:6]
+								}
+							}
+							note("T %s/tx%d %s orphan=%v err=%v pooled=%v best=%s ins:%s", w.name(pr.Hash), i+1, tx.ID.String()[:8], orphan, err, n.Pool.IsTransactionInPool(&tx.ID), w.name(n.Best()), ins)
 						}
 					}
 				}
@@ -98,6 +136,14 @@ func execC23(t *testing.T, plan any, r *simkit.Run) {
 				return
 			}
 			o.checkPool("concurrent delivery and submission", best)
+			if dbg && r.Failed() {
+				for _, l := range evlog {
+					fmt.Println("DEBUG", l)
+				}
+				for _, d := range n.Pool.GetTransactions() {
+					fmt.Println("DEBUG pooled", d.Tx.ID.String()[:8])
+				}
+			}
 			r.Tracef("concurrent: blocks=%d yields=%d rounds=%d", len(rest), p.Yields, p.Rounds)
 			r.NonTrivial()
 		})
